@@ -290,6 +290,30 @@ pub fn pack_requests(ctx: &mut Ctx) {
             emit_dets(ctx, &id, &su, &filter);
         }
     }
+    // members of every other kind of type (each a full slot by the rule), mixed with small ones, longer sequences
+    let wide = [
+        "bool", "uint8", "uint128", "address", "address payable", "bytes4", "bytes16", "bytes32", "int64", "uint256", "uint",
+        "mapping(address => uint256)", "mapping(address => mapping(uint256 => bool))", "string", "bytes", "uint256[]", "uint8[4]", "Other", "IThing",
+        "function (uint256) external returns (bool)", "uint128[2][]",
+    ];
+    let mut rng = Rng::new(ctx.seed ^ 0x9ac4_0000);
+    let n = if ctx.thorough { 4000 } else { 500 };
+    for k in 0..n {
+        let len = 2 + rng.below(7);
+        let seq: Vec<&str> = (0..len).map(|_| wide[rng.below(wide.len())]).collect();
+        let members: String = seq.iter().enumerate().map(|(i, t)| format!("  {} m{};\n", t, i)).collect();
+        let fields: String = seq.iter().enumerate().map(|(i, t)| format!("    {} f{};\n", t, i)).collect();
+        let holder = ["contract", "abstract contract", "library"][rng.below(3)];
+        let src = format!(
+            "pragma solidity 0.8.17;\ninterface IThing {{ }}\n{} C {{\n  struct Other {{ uint8 a; }}\n{}  struct S {{\n{}  }}\n}}\n",
+            holder, members, fields
+        );
+        let id = format!("packw{}", k);
+        if let Some(su) = emit_file(ctx, &id, &src, 0) {
+            emit_dets(ctx, &id, &su, &filter);
+        }
+    }
+    ctx.count("pack_wide_type_layouts", n as u64);
 }
 
 // ------------------------------------------------------------------------------------------ C17
@@ -455,6 +479,73 @@ pub fn relayout_requests(ctx: &mut Ctx, rng: &mut Rng) {
             super::files::emit_lines_pub(ctx, &id2, &src2, 0);
         }
     }
+    pragma_space_requests(ctx, rng);
+}
+
+/// White space between the tokens of a `pragma solidity` value (`^0.7.6||^0.8.4` / `^0.7.6 || ^0.8.4`, a tab or a line
+/// break between the bounds of a range).  solang lexes the whole value as one token, so this is not covered by
+/// `relayout`; in Solidity's own grammar the operators and versions are separate tokens and the layout between
+/// them is free.  Two spacings of the same constraint list, everything else byte-identical: every detector must flag
+/// the same constructs (offsets after the pragma shift by the difference in length).
+pub fn pragma_space_requests(ctx: &mut Ctx, rng: &mut Rng) {
+    let pool: [&[&str]; 12] = [
+        &["^", "0.7.6", "||", "^", "0.8.4"], &[">=", "0.7.0", "<", "0.8.5"], &[">=", "0.8.4", "||", "0.7.6"], &["^", "0.8.3", "||", "^", "0.7.0", "||", ">=", "0.8.4"],
+        &[">", "0.7.99", "<=", "0.8.3"], &["~", "0.8.0"], &["=", "0.8.4"], &["^", "0.8.0"], &[">=", "0.8.0", "<", "0.7.9"], &["0.8.3", "||", "0.8.4"],
+        &[">=", "0.6.0", "<", "0.8.0", "||", "^", "0.8.4"], &["<", "0.8.4", ">", "0.7.0"],
+    ];
+    let is_version = |t: &str| t.chars().next().map_or(false, |c| c.is_ascii_digit());
+    let n = if ctx.thorough { 400 } else { 60 };
+    let mut done = 0;
+    let mut attempts = 0;
+    while done < n && attempts < 20 * n {
+        attempts += 1;
+        let body = gen::scenario_file(rng.next());
+        // the scenario file's own pragma line is replaced
+        let rest: String = match body.find('\n') {
+            Some(p) if body.starts_with("pragma solidity") => body[p..].to_string(),
+            _ => continue,
+        };
+        let toks = pool[rng.below(pool.len())];
+        let space = |rng: &mut Rng, dense: bool| -> String {
+            let mut v = String::new();
+            for (i, t) in toks.iter().enumerate() {
+                if i > 0 {
+                    let need = is_version(toks[i - 1]) && *t != "||";
+                    let opts: &[&str] = if need { &[" ", "  ", "\t", "\n", " \t "] } else if dense { &["", "", " "] } else { &["", " ", "  ", "\t", "\n"] };
+                    v.push_str(opts[rng.below(opts.len())]);
+                }
+                v.push_str(t);
+            }
+            v
+        };
+        let va = { let mut v = String::new(); for (i, t) in toks.iter().enumerate() { if i > 0 && (is_version(toks[i - 1]) || *t == "||" || toks[i - 1] == "||") { v.push(' '); } v.push_str(t); } v };
+        let dense = rng.chance(1, 2);
+        let vb = space(rng, dense);
+        if va == vb {
+            continue;
+        }
+        let head = "pragma solidity ";
+        let a = format!("{}{};{}", head, va, rest);
+        let b = format!("{}{};{}", head, vb, rest);
+        let ida = format!("pa{}", done);
+        let idb = format!("pb{}", done);
+        let (sua, sub) = match (solang_parser::parse(&a, 0), solang_parser::parse(&b, 0)) {
+            (Ok((x, _)), Ok((y, _))) => (x, y),
+            _ => {
+                ctx.count("pragma_space_rejected", 1);
+                continue;
+            }
+        };
+        emit_file(ctx, &ida, &a, 0);
+        emit_file(ctx, &idb, &b, 0);
+        for (dname, d) in real::detectors() {
+            let r1 = real::run_detector(&d, &sua);
+            let r2 = real::run_detector(&d, &sub);
+            ctx.line(&["PRAGMASP", &ida, &idb, dname, &real::fmt_locs(&r1), &real::fmt_locs(&r2), &head.len().to_string(), &va.len().to_string(), &vb.len().to_string()]);
+        }
+        done += 1;
+    }
+    ctx.count("pragma_space_pairs", done as u64);
 }
 
 pub fn emit_lines_pub(ctx: &mut Ctx, id: &str, src: &str, file_no: usize) {
@@ -472,7 +563,21 @@ fn part_loc(p: &pt::SourceUnitPart) -> (usize, usize) {
 pub fn compose_requests(ctx: &mut Ctx, rng: &mut Rng) {
     let n = if ctx.thorough { 2500 } else { 200 };
     let fs = file_set(ctx, rng, n, Cfg { unique_state_names: true, max_items: 5, ..Cfg::default() });
-    for (k, (name, src)) in fs.iter().enumerate() {
+    for (k, (name, src0)) in fs.iter().enumerate() {
+        // every fourth file: multi-byte text inside the first item's extent and between items (byte offsets and character
+        // offsets then differ from there on, and differently in the whole file and in the blanked copies)
+        let src_owned: String = if k % 4 == 1 {
+            match solang_parser::parse(src0, 0) {
+                Ok((su0, _)) if su0.0.len() >= 2 => {
+                    let at = part_loc(&su0.0[su0.0.len() - 1]).0;
+                    format!("{}/* \u{e9}\u{e9}\u{e9}\u{e9}\u{e9}\u{e9}\u{e9}\u{e9}\u{e9}\u{e9}\u{e9}\u{e9}\u{e9}\u{e9}\u{e9}\u{e9}\u{e9}\u{e9}\u{e9}\u{e9}\u{e9}\u{e9}\u{e9}\u{e9}\u{e9}\u{e9}\u{e9}\u{e9}\u{e9}\u{e9} \u{1F600}\u{1F600}\u{1F600}\u{1F600}\u{1F600}\u{1F600}\u{1F600}\u{1F600}\u{1F600}\u{1F600}\u{1F600}\u{1F600} */ {}", &src0[..at], &src0[at..])
+                }
+                _ => src0.clone(),
+            }
+        } else {
+            src0.clone()
+        };
+        let src = &src_owned;
         let su = match solang_parser::parse(src, 0) {
             Ok((su, _)) => su,
             Err(_) => continue,
@@ -482,11 +587,17 @@ pub fn compose_requests(ctx: &mut Ctx, rng: &mut Rng) {
             ctx.count("compose_skipped_single_item", 1);
             continue;
         }
+        if items.len() > 12 {
+            // the driver keeps a bounded table of files; a file with very many items is cut to its first twelve
+            ctx.count("compose_skipped_more_than_12_items", 1);
+            continue;
+        }
         let idw = format!("w{}:{}", k, name);
         emit_file(ctx, &idw, src, 0);
         let starts: Vec<usize> = su.0.iter().map(|p| part_loc(p).0).collect();
         let mut part_ids = vec![];
         let mut part_sus = vec![];
+        let mut part_srcs: Vec<String> = vec![];
         let mut ok = true;
         for &i in &items {
             // blank every non-pragma item other than i: bytes -> spaces, line feeds kept
@@ -515,6 +626,7 @@ pub fn compose_requests(ctx: &mut Ctx, rng: &mut Rng) {
                 Some(sup) => {
                     part_ids.push(format!("{}={}", i, idp));
                     part_sus.push(sup);
+                    part_srcs.push(s2.clone());
                 }
                 None => {
                     ctx.count("compose_part_rejected", 1);
@@ -530,6 +642,19 @@ pub fn compose_requests(ctx: &mut Ctx, rng: &mut Rng) {
             let rw = real::run_detector(&d, &su);
             let rp: Vec<String> = part_sus.iter().map(|p| real::fmt_locs(&real::run_detector(&d, p))).collect();
             ctx.line(&["COMPOSE", &idw, &part_ids.join(","), dname, &real::fmt_locs(&rw), &rp.join("|")]);
+        }
+        // the same comparison on the LINES the per-file entry points report (the property speaks of lines)
+        let cats: Vec<(&str, Vec<&'static str>)> = vec![
+            ("opt", real::optimizations().into_iter().map(|x| x.0).collect()),
+            ("vuln", real::vulnerabilities().into_iter().map(|x| x.0).collect()),
+            ("qa", real::qas().into_iter().map(|x| x.0).collect()),
+        ];
+        for (cat, vs) in cats {
+            for v in vs {
+                let lw = real::fmt_lines(&real::run_lines(cat, v, src, 0));
+                let lp: Vec<String> = part_srcs.iter().map(|p| real::fmt_lines(&real::run_lines(cat, v, p, 0))).collect();
+                ctx.line(&["COMPOSELINES", &idw, &part_ids.join(","), cat, v, &lw, &lp.join("|")]);
+            }
         }
     }
 }
